@@ -3,7 +3,8 @@
    relative error u), then for the float instance of the model itself (@cmul AF on Coq's primitive binary64),
    through Flocq's specification of the primitive operations (Bmult/Bplus/Bminus_correct, relative_error_N_FLT):
        |fl(z*w) - z*w|^2 <= 2 (2u + u^2)^2 |z|^2 |w|^2 ,  u = 2^-53        (i.e. |error| <= 2.83 u |z||w|)
-   whenever no product / sum overflows or falls into the subnormal range.  *)
+   whenever no product / sum overflows or falls into the subnormal range; likewise componentwise u for + and -,
+   2u + u^2 for |z|^2, u for z * r, and normwise sqrt 2 * kappa (about 7.1 u) |z|/|w| for the quotient.  *)
 From Coq Require Import ZArith Reals Lra Lia Floats.
 From Flocq Require Import Core BinarySingleNaN PrimFloat Relative.
 From OV Require Import Base.Panic Base.Arith Model.Complex Inst.FloatInst.
@@ -266,5 +267,328 @@ Proof.
   { rewrite <- P2, <- P3. apply rnd64_between; try lia. rewrite P2, P3. lra. }
   repeat split; try (apply ffinite_SF; reflexivity);
     apply in_range_of_bounds; rewrite ?R2;
+    (rewrite Rabs_pos_eq by lra) || (rewrite Rabs_left by lra); lra.
+Qed.
+
+(* ---------------------------------------------------------------- 4. the single-rounding operators *)
+(* + and - round each component once: componentwise (hence normwise) relative error u *)
+Lemma cadd_csub_rounding_bound_lemma (z w : cplx AF) :
+  let a := FR (re z) in let b := FR (im z) in let c := FR (re w) in let d := FR (im w) in
+  ffinite (re z) -> ffinite (im z) -> ffinite (re w) -> ffinite (im w) ->
+  (in_range (a + c) -> in_range (b + d) ->
+   ffinite (re (cadd z w)) /\ ffinite (im (cadd z w)) /\
+   Rabs (FR (re (cadd z w)) - (a + c)) <= u64 * Rabs (a + c) /\
+   Rabs (FR (im (cadd z w)) - (b + d)) <= u64 * Rabs (b + d)) /\
+  (in_range (a - c) -> in_range (b - d) ->
+   ffinite (re (csub z w)) /\ ffinite (im (csub z w)) /\
+   Rabs (FR (re (csub z w)) - (a - c)) <= u64 * Rabs (a - c) /\
+   Rabs (FR (im (csub z w)) - (b - d)) <= u64 * Rabs (b - d)).
+Proof.
+  intros a b c d Fa Fb Fc Fd.
+  destruct z as [zr zi], w as [wr wi]. cbn [re im] in *. split.
+  - intros [U1 O1] [U2 O2].
+    change (re (cadd (mkC zr zi) (mkC wr wi))) with (zr + wr)%float.
+    change (im (cadd (mkC zr zi) (mkC wr wi))) with (zi + wi)%float.
+    destruct (fadd_correct zr wr Fa Fc O1) as [E1 F1]. destruct (fadd_correct zi wi Fb Fd O2) as [E2 F2].
+    rewrite E1, E2. repeat split; try assumption; apply rnd64_rel; assumption.
+  - intros [U1 O1] [U2 O2].
+    change (re (csub (mkC zr zi) (mkC wr wi))) with (zr - wr)%float.
+    change (im (csub (mkC zr zi) (mkC wr wi))) with (zi - wi)%float.
+    destruct (fsub_correct zr wr Fa Fc O1) as [E1 F1]. destruct (fsub_correct zi wi Fb Fd O2) as [E2 F2].
+    rewrite E1, E2. repeat split; try assumption; apply rnd64_rel; assumption.
+Qed.
+
+(* |z|^2 = fl(fl(a*a) + fl(b*b)): no cancellation, relative error 2u + u^2;  z * r rounds each component once *)
+Lemma abs_sqr_cmul_r_rounding_bound_lemma (z : cplx AF) (r : AF) :
+  let a := FR (re z) in let b := FR (im z) in let s := FR r in
+  ffinite (re z) -> ffinite (im z) ->
+  (in_range (a * a) -> in_range (b * b) -> in_range (rnd64 (a * a) + rnd64 (b * b)) ->
+   ffinite (abs_sqr z) /\
+   Rabs (FR (abs_sqr z) - (a * a + b * b)) <= (2 * u64 + u64 * u64) * (a * a + b * b)) /\
+  (ffinite r -> in_range (a * s) -> in_range (b * s) ->
+   ffinite (re (cmul_r z r)) /\ ffinite (im (cmul_r z r)) /\ rmul_c r z = cmul_r z r /\
+   Rabs (FR (re (cmul_r z r)) - a * s) <= u64 * Rabs (a * s) /\
+   Rabs (FR (im (cmul_r z r)) - b * s) <= u64 * Rabs (b * s)).
+Proof.
+  intros a b s Fa Fb. destruct z as [zr zi]. cbn [re im] in *. split.
+  - intros [U1 O1] [U2 O2] [U3 O3].
+    change (abs_sqr (mkC zr zi)) with (zr * zr + zi * zi)%float.
+    destruct (fmul_correct zr zr O1) as [E1 F1]. specialize (F1 Fa Fa).
+    destruct (fmul_correct zi zi O2) as [E2 F2]. specialize (F2 Fb Fb).
+    fold a b in E1, E2.
+    assert (O3' : no_overflow (FR (zr * zr)%float + FR (zi * zi)%float)) by (now rewrite E1, E2).
+    destruct (fadd_correct _ _ F1 F2 O3') as [E3 F3].
+    split; [exact F3|]. rewrite E3, E1, E2.
+    pose proof (round_sum_err u64 u64_nonneg 1 (a * a) (b * b) (rnd64 (a * a)) (rnd64 (b * b))
+                  (rnd64 (rnd64 (a * a) + rnd64 (b * b))) Rabs_R1) as K.
+    replace (rnd64 (a * a) + 1 * rnd64 (b * b)) with (rnd64 (a * a) + rnd64 (b * b)) in K by ring.
+    replace (a * a + 1 * (b * b)) with (a * a + b * b) in K by ring.
+    assert (Pa : 0 <= a * a) by (apply (Rle_0_sqr a)). assert (Pb : 0 <= b * b) by (apply (Rle_0_sqr b)).
+    rewrite (Rabs_pos_eq (a * a)), (Rabs_pos_eq (b * b)) in K by assumption.
+    apply K; unfold rel_err; apply rnd64_rel; assumption.
+  - intros Fr [U1 O1] [U2 O2].
+    change (re (cmul_r (mkC zr zi) r)) with (zr * r)%float.
+    change (im (cmul_r (mkC zr zi) r)) with (zi * r)%float.
+    destruct (fmul_correct zr r O1) as [E1 F1]. destruct (fmul_correct zi r O2) as [E2 F2].
+    fold a b s in E1, E2. rewrite E1, E2.
+    repeat split; auto; apply rnd64_rel; assumption.
+Qed.
+
+(* ---------------------------------------------------------------- 5. division *)
+Section StdModelDiv.
+Variable u : R.
+Hypothesis u_nonneg : 0 <= u.
+
+(* a rounded quotient of a perturbed numerator (|R1 - R0| <= g m, |R0| <= m) by a perturbed positive denominator *)
+Lemma quot_err (g R0 R1 D0 D1 q m : R) :
+  0 <= g < 1 -> 0 < D0 -> Rabs (D1 - D0) <= g * D0 -> Rabs (R1 - R0) <= g * m -> Rabs R0 <= m ->
+  Rabs (q - R1 / D1) <= u * Rabs (R1 / D1) ->
+  Rabs (q - R0 / D0) <= ((2 * g + u * (1 + g)) / (1 - g)) * (m / D0).
+Proof.
+  intros [G0 G1] HD HD1 HR1 HR0 Hq.
+  assert (M0 : 0 <= m) by (pose proof (Rabs_pos R0); lra).
+  apply Rabs_le_inv in HD1.
+  assert (P : 0 < (1 - g) * D0) by (apply Rmult_lt_0_compat; lra).
+  assert (L : (1 - g) * D0 <= D1) by lra.
+  assert (D1pos : 0 < D1) by lra.
+  set (k := / ((1 - g) * D0)).
+  assert (Kpos : 0 < k) by (apply Rinv_0_lt_compat; exact P).
+  assert (Kle : / D1 <= k) by (apply Rinv_le_contravar; assumption).
+  assert (I1pos : 0 < / D1) by (apply Rinv_0_lt_compat; exact D1pos).
+  assert (A1 : Rabs R1 <= (1 + g) * m).
+  { replace R1 with ((R1 - R0) + R0) by ring. eapply Rle_trans; [apply Rabs_triang|]. lra. }
+  assert (A : Rabs (R1 / D1) <= ((1 + g) * m) * k).
+  { unfold Rdiv. rewrite Rabs_mult, (Rabs_pos_eq (/ D1)) by lra.
+    apply Rmult_le_compat; try lra. apply Rabs_pos. }
+  assert (N : Rabs ((R1 - R0) * D0 - R0 * (D1 - D0)) <= 2 * (g * m) * D0).
+  { replace ((R1 - R0) * D0 - R0 * (D1 - D0)) with ((R1 - R0) * D0 + (- R0) * (D1 - D0)) by ring.
+    eapply Rle_trans; [apply Rabs_triang|]. rewrite !Rabs_mult, Rabs_Ropp, (Rabs_pos_eq D0) by lra.
+    assert (X1 : Rabs (R1 - R0) * D0 <= (g * m) * D0) by (apply Rmult_le_compat_r; lra).
+    assert (X2 : Rabs R0 * Rabs (D1 - D0) <= m * (g * D0)).
+    { apply Rmult_le_compat; try apply Rabs_pos; try assumption. apply Rabs_le. lra. }
+    lra. }
+  assert (B : Rabs (R1 / D1 - R0 / D0) <= (2 * (g * m)) * k).
+  { replace (R1 / D1 - R0 / D0) with (((R1 - R0) * D0 - R0 * (D1 - D0)) * (/ D1 * / D0)) by (field; lra).
+    rewrite Rabs_mult. rewrite (Rabs_pos_eq (/ D1 * / D0)).
+    2:{ apply Rlt_le, Rmult_lt_0_compat; [exact I1pos | apply Rinv_0_lt_compat; exact HD]. }
+    eapply Rle_trans; [apply Rmult_le_compat_r; [|exact N]|].
+    - apply Rlt_le, Rmult_lt_0_compat; [exact I1pos | apply Rinv_0_lt_compat; exact HD].
+    - replace (2 * (g * m) * D0 * (/ D1 * / D0)) with ((2 * (g * m)) * / D1) by (field; lra).
+      apply Rmult_le_compat_l; [|exact Kle]. assert (0 <= g * m) by (apply Rmult_le_pos; lra). lra. }
+  replace (q - R0 / D0) with ((q - R1 / D1) + (R1 / D1 - R0 / D0)) by ring.
+  eapply Rle_trans; [apply Rabs_triang|].
+  assert (C : u * Rabs (R1 / D1) <= u * (((1 + g) * m) * k)) by (apply Rmult_le_compat_l; assumption).
+  replace ((2 * g + u * (1 + g)) / (1 - g) * (m / D0)) with (u * ((1 + g) * m * k) + 2 * (g * m) * k)
+    by (unfold k; field; lra).
+  lra.
+Qed.
+
+Definition kappa (g : R) : R := (2 * g + u * (1 + g)) / (1 - g).
+
+(* the rounded complex quotient as the code computes it:
+   den = fl(fl(cc) + fl(dd)),  x = fl(fl(fl(ac) + fl(bd)) / den),  y = fl(fl(fl(bc) - fl(ad)) / den) *)
+Theorem cdiv_std_model (a b c d pcc pdd D1 pac pbd R1 pbc pad I1 qx qy : R) :
+  2 * u + u * u < 1 -> 0 < c * c + d * d ->
+  rel_err u pcc (c * c) -> rel_err u pdd (d * d) -> rel_err u D1 (pcc + pdd) ->
+  rel_err u pac (a * c) -> rel_err u pbd (b * d) -> rel_err u R1 (pac + pbd) ->
+  rel_err u pbc (b * c) -> rel_err u pad (a * d) -> rel_err u I1 (pbc - pad) ->
+  rel_err u qx (R1 / D1) -> rel_err u qy (I1 / D1) ->
+  let er := qx - (a * c + b * d) / (c * c + d * d) in
+  let ei := qy - (b * c - a * d) / (c * c + d * d) in
+  er * er + ei * ei <= 2 * (kappa (2 * u + u * u) * kappa (2 * u + u * u)) * ((a * a + b * b) / (c * c + d * d)).
+Proof.
+  intros G1 HD Hcc Hdd HD1 Hac Hbd HR1 Hbc Had HI1 Hqx Hqy er ei.
+  set (g := 2 * u + u * u) in *. set (D0 := c * c + d * d) in *.
+  assert (G0 : 0 <= g) by (unfold g; assert (0 <= u * u) by (apply Rmult_le_pos; assumption); lra).
+  (* denominator *)
+  assert (ED : Rabs (D1 - D0) <= g * D0).
+  { pose proof (round_sum_err u u_nonneg 1 (c * c) (d * d) pcc pdd D1 Rabs_R1) as K.
+    replace (pcc + 1 * pdd) with (pcc + pdd) in K by ring.
+    replace (c * c + 1 * (d * d)) with D0 in K by (unfold D0; ring).
+    rewrite (Rabs_pos_eq (c * c)), (Rabs_pos_eq (d * d)) in K by (apply Rle_0_sqr).
+    apply K; assumption. }
+  (* numerators *)
+  set (mR := Rabs (a * c) + Rabs (b * d)). set (mI := Rabs (a * d) + Rabs (b * c)).
+  assert (ER : Rabs (R1 - (a * c + b * d)) <= g * mR).
+  { pose proof (round_sum_err u u_nonneg 1 (a * c) (b * d) pac pbd R1 Rabs_R1) as K.
+    replace (pac + 1 * pbd) with (pac + pbd) in K by ring.
+    replace (a * c + 1 * (b * d)) with (a * c + b * d) in K by ring. apply K; assumption. }
+  assert (EI : Rabs (I1 - (b * c - a * d)) <= g * mI).
+  { assert (S1 : Rabs (-1) = 1) by (unfold Rabs; destruct (Rcase_abs (-1)); lra).
+    pose proof (round_sum_err u u_nonneg (-1) (b * c) (a * d) pbc pad I1 S1) as K.
+    replace (pbc + -1 * pad) with (pbc - pad) in K by ring.
+    replace (b * c + -1 * (a * d)) with (b * c - a * d) in K by ring.
+    unfold mI. rewrite (Rplus_comm (Rabs (a * d))). apply K; assumption. }
+  assert (BR : Rabs (a * c + b * d) <= mR) by apply Rabs_triang.
+  assert (BI : Rabs (b * c - a * d) <= mI).
+  { unfold mI. replace (b * c - a * d) with (b * c + - (a * d)) by ring.
+    eapply Rle_trans; [apply Rabs_triang|]. rewrite Rabs_Ropp. lra. }
+  assert (GG : 0 <= g < 1) by (split; assumption).
+  pose proof (quot_err g _ R1 D0 D1 qx mR GG HD ED ER BR Hqx) as Qx.
+  pose proof (quot_err g _ I1 D0 D1 qy mI GG HD ED EI BI Hqy) as Qy.
+  fold (kappa g) in Qx, Qy. fold er in Qx. fold ei in Qy.
+  apply sq_le_of_abs_le in Qx. apply sq_le_of_abs_le in Qy.
+  pose proof (cauchy_like a b c d) as K. fold mR mI D0 in K.
+  assert (KK : 0 <= kappa g * kappa g) by (apply (Rle_0_sqr (kappa g))).
+  assert (ID : 0 < / D0) by (apply Rinv_0_lt_compat; exact HD).
+  assert (K' : (kappa g * kappa g) * (/ D0 * / D0) * (mR * mR + mI * mI)
+               <= (kappa g * kappa g) * (/ D0 * / D0) * (2 * ((a * a + b * b) * D0))).
+  { apply Rmult_le_compat_l; [|exact K]. apply Rmult_le_pos; [exact KK|]. apply Rlt_le, Rmult_lt_0_compat; exact ID. }
+  replace (2 * (kappa g * kappa g) * ((a * a + b * b) / D0))
+    with ((kappa g * kappa g) * (/ D0 * / D0) * (2 * ((a * a + b * b) * D0))) by (field; lra).
+  eapply Rle_trans; [|exact K'].
+  replace (kappa g * kappa g * (/ D0 * / D0) * (mR * mR + mI * mI))
+    with (kappa g * (mR / D0) * (kappa g * (mR / D0)) + kappa g * (mI / D0) * (kappa g * (mI / D0))) by (field; lra).
+  lra.
+Qed.
+End StdModelDiv.
+
+Lemma fdiv_correct (x y : pfloat) : ffinite x -> FR y <> 0 -> no_overflow (FR x / FR y) ->
+  FR (x / y)%float = rnd64 (FR x / FR y) /\ ffinite (x / y)%float.
+Proof.
+  unfold FR, ffinite, no_overflow. intros Fx Ny H. rewrite div_equiv.
+  pose proof (Bdiv_correct prec emax Hprec Hmax mode_NE (Prim2B x) (Prim2B y) Ny) as K.
+  change (round radix2 (fexp prec emax) (round_mode mode_NE)) with rnd64 in K.
+  change (bpow radix2 emax) with (bpow radix2 1024) in K.
+  rewrite Rlt_bool_true in K by exact H.
+  destruct K as (K1 & K2 & _). split; [exact K1 | now rewrite K2].
+Qed.
+
+Lemma u64_small : 2 * u64 + u64 * u64 < 1.
+Proof.
+  assert (H : u64 <= / 4).
+  { unfold u64. assert (bpow radix2 (-53 + 1) <= bpow radix2 (-1)) by (apply bpow_le; lia).
+    change (bpow radix2 (-1)) with (/ 2) in H. lra. }
+  pose proof u64_nonneg as P.
+  assert (u64 * u64 <= / 4 * / 4) by (apply Rmult_le_compat; lra). lra.
+Qed.
+
+(* the float instance of the model: z / w for z, w : cplx AF *)
+Lemma cdiv_rounding_bound_lemma (z w : cplx AF) :
+  let a := FR (re z) in let b := FR (im z) in let c := FR (re w) in let d := FR (im w) in
+  let D1 := rnd64 (rnd64 (c * c) + rnd64 (d * d)) in
+  let R1 := rnd64 (rnd64 (a * c) + rnd64 (b * d)) in
+  let I1 := rnd64 (rnd64 (b * c) - rnd64 (a * d)) in
+  ffinite (re z) -> ffinite (im z) -> ffinite (re w) -> ffinite (im w) -> 0 < c * c + d * d ->
+  in_range (c * c) -> in_range (d * d) -> in_range (rnd64 (c * c) + rnd64 (d * d)) ->
+  in_range (a * c) -> in_range (b * d) -> in_range (rnd64 (a * c) + rnd64 (b * d)) ->
+  in_range (b * c) -> in_range (a * d) -> in_range (rnd64 (b * c) - rnd64 (a * d)) ->
+  in_range (R1 / D1) -> in_range (I1 / D1) ->
+  exists q, cdiv z w = Ok q /\ ffinite (re q) /\ ffinite (im q) /\
+  let er := FR (re q) - (a * c + b * d) / (c * c + d * d) in
+  let ei := FR (im q) - (b * c - a * d) / (c * c + d * d) in
+  er * er + ei * ei <=
+    2 * (kappa u64 (2 * u64 + u64 * u64) * kappa u64 (2 * u64 + u64 * u64)) * ((a * a + b * b) / (c * c + d * d)).
+Proof.
+  intros a b c d D1 R1 I1 Fa Fb Fc Fd HD [U1 O1] [U2 O2] [U3 O3] [U4 O4] [U5 O5] [U6 O6] [U7 O7] [U8 O8] [U9 O9]
+         [U10 O10] [U11 O11].
+  destruct z as [zr zi], w as [wr wi]. cbn [re im] in *.
+  exists (@mkC AF ((zr * wr + zi * wi) / (wr * wr + wi * wi))%float ((zi * wr - zr * wi) / (wr * wr + wi * wi))%float).
+  split; [reflexivity|]. cbn [re im].
+  destruct (fmul_correct wr wr O1) as [E1 F1]. specialize (F1 Fc Fc).
+  destruct (fmul_correct wi wi O2) as [E2 F2]. specialize (F2 Fd Fd).
+  destruct (fmul_correct zr wr O4) as [E4 F4]. specialize (F4 Fa Fc).
+  destruct (fmul_correct zi wi O5) as [E5 F5]. specialize (F5 Fb Fd).
+  destruct (fmul_correct zi wr O7) as [E7 F7]. specialize (F7 Fb Fc).
+  destruct (fmul_correct zr wi O8) as [E8 F8]. specialize (F8 Fa Fd).
+  fold a b c d in E1, E2, E4, E5, E7, E8.
+  assert (O3' : no_overflow (FR (wr * wr)%float + FR (wi * wi)%float)) by (now rewrite E1, E2).
+  assert (O6' : no_overflow (FR (zr * wr)%float + FR (zi * wi)%float)) by (now rewrite E4, E5).
+  assert (O9' : no_overflow (FR (zi * wr)%float - FR (zr * wi)%float)) by (now rewrite E7, E8).
+  destruct (fadd_correct _ _ F1 F2 O3') as [E3 F3]. rewrite E1, E2 in E3. fold D1 in E3.
+  destruct (fadd_correct _ _ F4 F5 O6') as [E6 F6]. rewrite E4, E5 in E6. fold R1 in E6.
+  destruct (fsub_correct _ _ F7 F8 O9') as [E9 F9]. rewrite E7, E8 in E9. fold I1 in E9.
+  (* the standard-model facts *)
+  assert (Hcc := rnd64_rel _ U1). assert (Hdd := rnd64_rel _ U2). assert (HD1 := rnd64_rel _ U3).
+  assert (Hac := rnd64_rel _ U4). assert (Hbd := rnd64_rel _ U5). assert (HR1 := rnd64_rel _ U6).
+  assert (Hbc := rnd64_rel _ U7). assert (Had := rnd64_rel _ U8). assert (HI1 := rnd64_rel _ U9).
+  assert (Hqx := rnd64_rel _ U10). assert (Hqy := rnd64_rel _ U11).
+  fold D1 in HD1. fold R1 in HR1. fold I1 in HI1.
+  (* the computed denominator is not zero *)
+  assert (ND : D1 <> 0).
+  { pose proof (round_sum_err u64 u64_nonneg 1 (c * c) (d * d) (rnd64 (c * c)) (rnd64 (d * d)) D1 Rabs_R1) as K.
+    replace (rnd64 (c * c) + 1 * rnd64 (d * d)) with (rnd64 (c * c) + rnd64 (d * d)) in K by ring.
+    specialize (K Hcc Hdd HD1).
+    rewrite (Rabs_pos_eq (c * c)), (Rabs_pos_eq (d * d)) in K by (apply Rle_0_sqr).
+    replace (c * c + 1 * (d * d)) with (c * c + d * d) in K by ring.
+    apply Rabs_le_inv in K. pose proof u64_small as S.
+    assert (0 < (1 - (2 * u64 + u64 * u64)) * (c * c + d * d)) by (apply Rmult_lt_0_compat; lra).
+    lra. }
+  assert (O10' : no_overflow (FR (zr * wr + zi * wi)%float / FR (wr * wr + wi * wi)%float)) by (now rewrite E6, E3).
+  assert (O11' : no_overflow (FR (zi * wr - zr * wi)%float / FR (wr * wr + wi * wi)%float)) by (now rewrite E9, E3).
+  assert (ND' : FR (wr * wr + wi * wi)%float <> 0) by (now rewrite E3).
+  destruct (fdiv_correct _ _ F6 ND' O10') as [Ex Fx]. destruct (fdiv_correct _ _ F9 ND' O11') as [Ey Fy].
+  split; [exact Fx|]. split; [exact Fy|].
+  rewrite Ex, Ey, E6, E9, E3.
+  apply (cdiv_std_model u64 u64_nonneg a b c d (rnd64 (c * c)) (rnd64 (d * d)) D1
+           (rnd64 (a * c)) (rnd64 (b * d)) R1 (rnd64 (b * c)) (rnd64 (a * d)) I1); try assumption.
+  exact u64_small.
+Qed.
+
+Lemma quot_between (x y lx hx ly hy : R) : 0 < lx -> 0 < ly -> lx <= x <= hx -> ly <= y <= hy ->
+  lx / hy <= x / y <= hx / ly.
+Proof.
+  intros Plx Ply [X1 X2] [Y1 Y2]. unfold Rdiv.
+  assert (/ hy <= / y) by (apply Rinv_le_contravar; lra).
+  assert (/ y <= / ly) by (apply Rinv_le_contravar; lra).
+  assert (0 < / hy) by (apply Rinv_0_lt_compat; lra).
+  split.
+  - apply Rmult_le_compat; lra.
+  - apply Rmult_le_compat; lra.
+Qed.
+
+(* (1.5 + 2i) / (3 - 0.5i) meets every hypothesis of cdiv_rounding_bound *)
+Example cdiv_rounding_bound_nonvacuous :
+  let z := @mkC AF 1.5%float 2%float in let w := @mkC AF 3%float (-0.5)%float in
+  let a := FR (re z) in let b := FR (im z) in let c := FR (re w) in let d := FR (im w) in
+  let D1 := rnd64 (rnd64 (c * c) + rnd64 (d * d)) in
+  let R1 := rnd64 (rnd64 (a * c) + rnd64 (b * d)) in
+  let I1 := rnd64 (rnd64 (b * c) - rnd64 (a * d)) in
+  ffinite (re z) /\ ffinite (im z) /\ ffinite (re w) /\ ffinite (im w) /\ 0 < c * c + d * d /\
+  in_range (c * c) /\ in_range (d * d) /\ in_range (rnd64 (c * c) + rnd64 (d * d)) /\
+  in_range (a * c) /\ in_range (b * d) /\ in_range (rnd64 (a * c) + rnd64 (b * d)) /\
+  in_range (b * c) /\ in_range (a * d) /\ in_range (rnd64 (b * c) - rnd64 (a * d)) /\
+  in_range (R1 / D1) /\ in_range (I1 / D1).
+Proof.
+  cbn [re im].
+  assert (Ea : FR 1.5%float = 1.5) by fr_eval. assert (Eb : FR 2%float = 2) by fr_eval.
+  assert (Ec : FR 3%float = 3) by fr_eval. assert (Ed : FR (-0.5)%float = -0.5) by fr_eval.
+  rewrite Ea, Eb, Ec, Ed.
+  assert (B0 : bpow radix2 (-1022) <= bpow radix2 (-4)) by (apply bpow_le; lia).
+  assert (B1 : bpow radix2 5 <= bpow radix2 1023) by (apply bpow_le; lia).
+  assert (Pm4 : bpow radix2 (-4) = / 16) by (cbn; lra).
+  assert (Pm2 : bpow radix2 (-2) = / 4) by (cbn; lra).
+  assert (Pm1 : bpow radix2 (-1) = / 2) by reflexivity.
+  assert (P0 : bpow radix2 0 = 1) by reflexivity.
+  assert (P1 : bpow radix2 1 = 2) by reflexivity.
+  assert (P2 : bpow radix2 2 = 4) by (cbn; lra).
+  assert (P3 : bpow radix2 3 = 8) by (cbn; lra).
+  assert (P4 : bpow radix2 4 = 16) by (cbn; lra).
+  assert (P5 : bpow radix2 5 = 32) by (cbn; lra).
+  assert (Rcc : 8 <= rnd64 (3 * 3) <= 16).
+  { rewrite <- P3, <- P4. apply rnd64_between; try lia. rewrite P3, P4. lra. }
+  assert (Rdd : / 4 <= rnd64 (-0.5 * -0.5) <= / 4).
+  { rewrite <- Pm2. apply rnd64_between; try lia. rewrite Pm2. lra. }
+  assert (RD : 8 <= rnd64 (rnd64 (3 * 3) + rnd64 (-0.5 * -0.5)) <= 32).
+  { rewrite <- P3, <- P5. apply rnd64_between; try lia. rewrite P3, P5. lra. }
+  assert (Rac : 4 <= rnd64 (1.5 * 3) <= 8).
+  { rewrite <- P2, <- P3. apply rnd64_between; try lia. rewrite P2, P3. lra. }
+  assert (Rbd : -1 <= rnd64 (2 * -0.5) <= -1).
+  { replace (2 * -0.5) with (- bpow radix2 0) by (rewrite P0; lra). rewrite rnd64_opp.
+    assert (K : bpow radix2 0 <= rnd64 (bpow radix2 0) <= bpow radix2 0) by (apply rnd64_between; try lia; lra).
+    rewrite P0 in K. rewrite P0. lra. }
+  assert (RR : 2 <= rnd64 (rnd64 (1.5 * 3) + rnd64 (2 * -0.5)) <= 8).
+  { rewrite <- P1, <- P3. apply rnd64_between; try lia. rewrite P1, P3. lra. }
+  assert (Rbc : 4 <= rnd64 (2 * 3) <= 8).
+  { rewrite <- P2, <- P3. apply rnd64_between; try lia. rewrite P2, P3. lra. }
+  assert (Rad : / 2 <= rnd64 (- (1.5 * -0.5)) <= 1).
+  { rewrite <- Pm1, <- P0. apply rnd64_between; try lia. rewrite Pm1, P0. lra. }
+  rewrite rnd64_opp in Rad.
+  assert (RI : 4 <= rnd64 (rnd64 (2 * 3) - rnd64 (1.5 * -0.5)) <= 16).
+  { rewrite <- P2, <- P4. apply rnd64_between; try lia. rewrite P2, P4. lra. }
+  pose proof (quot_between _ _ 2 8 8 32 ltac:(lra) ltac:(lra) RR RD) as QR.
+  pose proof (quot_between _ _ 4 16 8 32 ltac:(lra) ltac:(lra) RI RD) as QI.
+  repeat split; try (apply ffinite_SF; reflexivity); try lra;
+    apply in_range_of_bounds;
     (rewrite Rabs_pos_eq by lra) || (rewrite Rabs_left by lra); lra.
 Qed.
